@@ -399,8 +399,12 @@ Definition step_core (w : world) (e : event) : world * string :=
       match matcher_panics (w_cfg w) (w_state w) m a with
       | Some s' => (set_state w s', "P:user:matcher")
       | None =>
+        match debug_panics (w_cfg w) (w_state w) m a with
+        | Some s' => (set_state w s', "P:user:debug")
+        | None =>
         let '(s', act) := call hinfo N haccepts hdebug (w_cfg w) (w_state w) m a in
         (after_call w i it s' act, show_call w m a act)
+        end
       end
     end
   | BCallM i m a =>
@@ -434,6 +438,17 @@ Definition step_core (w : world) (e : event) : world * string :=
          | Some _ => "ABORT"
          end)
       | None =>
+      match debug_panics (w_cfg w) (w_state w) m a with
+      | Some sd =>
+        (* the Debug impl of an argument (user code) panics while the call is rendered: the scope is left by unwinding *)
+        let w1 := set_state w sd in
+        let x1 := {| x_other_thread := x_other_thread x; x_unwinding := true |} in
+        (kill w1 i it,
+         match drop_panic hinfo (w_bc w1) (w_cfg w1) sd x1 it (count_after_release (w_insts w1) it) with
+         | None => "P:user:debug"
+         | Some _ => "ABORT"
+         end)
+      | None =>
       let '(s', act) := call hinfo N haccepts hdebug (w_cfg w) (w_state w) m a in
       let w1 := after_call w i it s' act in
       match nth_opt (w_insts w1) i with
@@ -446,6 +461,7 @@ Definition step_core (w : world) (e : event) : world * string :=
         (kill w1 i it1,
          if unwinding then match r with None => show_call w m a act | Some _ => "ABORT" end
          else show_call w m a act ++ "|" ++ show_panic r)
+      end
       end
       end
     end
@@ -585,9 +601,13 @@ Definition swallowed_call (cfg : config) (st : state * N) (c : N * N) : state * 
   match matcher_panics cfg s m a with
   | Some sp => (sp, armed)
   | None =>
+    match debug_panics cfg s m a with
+    | Some sd => (sd, armed)
+    | None =>
     let '(s1, act) := call hinfo N haccepts hdebug cfg s m a in
     let '(s2, ar2, _) := eval_act 12 cfg armed s1 m a (a + 1) act in
     (s2, ar2)
+    end
   end.
 
 Definition release (w : world) (i : nat) (it : inst) : world :=
